@@ -1,35 +1,55 @@
 import MobiusModel.Board
 /-!
-  Crash: persistent updates as system-call programs over a small file-system model.
+  Crash: persistent updates as system-call programs over a small file-system model WITH INODES.
 
-  * `FS` = one directory: an association list name ↦ content (order = directory order, irrelevant to
-    the loaders' results, kept so that statements are plain list equalities).
+  * `FS` = one directory: `names : List (Name × Nat)` (name ↦ inode number, in directory order), the
+    inode contents `data : Nat → Bytes`, and the next unused inode number.  Hard links (`os.Link`)
+    make two names share an inode: writing through one name changes what the other name shows.
+    (The first version of this model copied contents on `link`; that hid the defect repaired by
+    `fix: 57e02c9` – a temp name still linked to an account file after a crash.)
   * `Sys` = the calls the Go standard library makes for `os.WriteFile` (open with
     `O_WRONLY|O_CREAT|O_TRUNC`, `write`, `close` – three separate crash points), `os.Rename`, `os.Link`,
-    `os.Remove`.  `apply` gives their POSIX effect on the namespace (a failing call changes nothing).
+    `os.Remove`.  `apply` gives their POSIX effect (a failing call changes nothing).
   * `crash prog k fs` = the state found after a kill between the k-th and the (k+1)-th call.
-  * programs: `tempRename`, `createLink`, `renameUpdate`, `[remove]`, and the negative witness
-    `directWrite`.
+  * programs: `tempRename` (board, news, ban list), `freshTempRename`, `freshCreateLink`,
+    `freshRenameUpdate`, `updateProg` (accounts, with the leading removal of the temp name),
+    `[remove]`; negative witnesses `directWrite`, `tempRenameNoTrunc`, `createLink` /
+    `tempRename` on the shared account temp name (the programs before `fix: 57e02c9`).
   * loaders mirroring `NewFlatNews`, `NewThreadedNewsYAML`, `NewBanFile`, `NewYAMLAccountManager`; the
     YAML decoder is a parameter `deser`.
 -/
 namespace Mobius.Crash
 
 abbrev Name := List Char
-abbrev FS := List (Name × Bytes)
+abbrev Dir := List (Name × Nat)
+/-- what a loader gets from listing a directory and reading the files: (name, content) in directory order -/
+abbrev View := List (Name × Bytes)
 
-def get : FS → Name → Option Bytes
+structure FS where
+  names : Dir
+  data : Nat → Bytes
+  next : Nat
+
+/-! ### directory (name ↦ inode) operations -/
+
+def ino : Dir → Name → Option Nat
   | [], _ => none
-  | (q, c) :: fs, p => if q = p then some c else get fs p
+  | (q, i) :: d, p => if q = p then some i else ino d p
 
-/-- create or replace (in place) -/
-def set : FS → Name → Bytes → FS
-  | [], p, c => [(p, c)]
-  | (q, d) :: fs, p, c => if q = p then (q, c) :: fs else (q, d) :: set fs p c
+def eraseN (d : Dir) (p : Name) : Dir := d.filter fun e => !(e.1 == p)
 
-def erase (fs : FS) (p : Name) : FS := fs.filter fun e => !(e.1 == p)
+/-- point every entry called `p` at inode `i` -/
+def replN (d : Dir) (p : Name) (i : Nat) : Dir := d.map fun e => if e.1 = p then (p, i) else e
 
-def renameKey (fs : FS) (a b : Name) : FS := fs.map fun e => if e.1 = a then (b, e.2) else e
+/-- rename every entry called `a` to `b` -/
+def renN (d : Dir) (a b : Name) : Dir := d.map fun e => if e.1 = a then (b, e.2) else e
+
+def upd (f : Nat → Bytes) (i : Nat) (c : Bytes) : Nat → Bytes := fun j => if j = i then c else f j
+
+def get (fs : FS) (p : Name) : Option Bytes := (ino fs.names p).map fs.data
+
+/-- every inode in use is below the allocation counter (so a newly created file gets an unshared inode) -/
+def WF (fs : FS) : Prop := ∀ e ∈ fs.names, e.2 < fs.next
 
 inductive Sys where
   | openTrunc (p : Name)
@@ -38,37 +58,40 @@ inductive Sys where
   | rename (a b : Name)
   | link (a b : Name)
   | remove (p : Name)
-  | openKeep (p : Name)            -- open(O_WRONLY|O_CREAT) WITHOUT O_TRUNC (negative witness only)
+  | openKeep (p : Name)              -- open(O_WRONLY|O_CREAT) WITHOUT O_TRUNC (negative witness only)
   | overwrite (p : Name) (d : Bytes) -- write at offset 0 of an untruncated file (negative witness only)
 deriving DecidableEq, Repr
 
 def apply (fs : FS) : Sys → FS
-  | .openTrunc p => set fs p []
+  | .openTrunc p =>
+    match ino fs.names p with
+    | some i => { fs with data := upd fs.data i [] }
+    | none => { names := fs.names ++ [(p, fs.next)], data := upd fs.data fs.next [], next := fs.next + 1 }
   | .write p d =>
-    match get fs p with
-    | some c => set fs p (c ++ d)
+    match ino fs.names p with
+    | some i => { fs with data := upd fs.data i (fs.data i ++ d) }
     | none => fs
   | .close _ => fs
   | .rename a b =>
-    match get fs a with
+    match ino fs.names a with
     | none => fs
-    | some c =>
+    | some i =>
       if a = b then fs
-      else match get fs b with
-        | some _ => erase (set fs b c) a
-        | none => renameKey fs a b
+      else match ino fs.names b with
+        | some _ => { fs with names := eraseN (replN fs.names b i) a }
+        | none => { fs with names := renN fs.names a b }
   | .link a b =>
-    match get fs a, get fs b with
-    | some c, none => fs ++ [(b, c)]
+    match ino fs.names a, ino fs.names b with
+    | some i, none => { fs with names := fs.names ++ [(b, i)] }
     | _, _ => fs
-  | .remove p => erase fs p
+  | .remove p => { fs with names := eraseN fs.names p }
   | .openKeep p =>
-    match get fs p with
+    match ino fs.names p with
     | some _ => fs
-    | none => set fs p []
+    | none => { names := fs.names ++ [(p, fs.next)], data := upd fs.data fs.next [], next := fs.next + 1 }
   | .overwrite p d =>
-    match get fs p with
-    | some c => set fs p (d ++ c.drop d.length)
+    match ino fs.names p with
+    | some i => { fs with data := upd fs.data i (d ++ (fs.data i).drop d.length) }
     | none => fs
 
 /-- The state a restart finds when the process was killed after the first `k` calls of `prog`. -/
@@ -77,23 +100,34 @@ def crash (prog : List Sys) (k : Nat) (fs : FS) : FS := (prog.take k).foldl appl
 /-- `os.WriteFile(p, d, 0644)` -/
 def writeFile (p : Name) (d : Bytes) : List Sys := [.openTrunc p, .write p d, .close p]
 
-/-- write-temp-then-rename: `FlatNews.Write`, `ThreadedNewsYAML.writeFile`, `BanFile.Add`,
-    `YAMLAccountManager.Update` (same login). -/
+/-- write-temp-then-rename: `FlatNews.Write`, `ThreadedNewsYAML.writeFile`, `BanFile.Add`. -/
 def tempRename (tmp p : Name) (new : Bytes) : List Sys := writeFile tmp new ++ [.rename tmp p]
 
-/-- `YAMLAccountManager.Create`: write temp, link to the final name (fails if it exists), remove temp. -/
+/-- The account programs BEFORE `fix: 57e02c9` (kept for the negative witness). -/
 def createLink (tmp final : Name) (d : Bytes) : List Sys := writeFile tmp d ++ [.link tmp final, .remove tmp]
 
+/-- Account writes since `fix: 57e02c9`: a left-over temp NAME is removed before the temp file is written
+    (it may still be hard-linked to an account file after a crash between `link` and `remove` in `Create`),
+    so the temp file always gets an inode of its own. -/
+def freshWrite (tmp : Name) (d : Bytes) : List Sys := .remove tmp :: writeFile tmp d
+
+/-- `YAMLAccountManager.Update`, same login. -/
+def freshTempRename (tmp p : Name) (new : Bytes) : List Sys := freshWrite tmp new ++ [.rename tmp p]
+
+/-- `YAMLAccountManager.Create`: remove temp name, write temp, link to the final name (fails if it exists),
+    remove temp. -/
+def freshCreateLink (tmp final : Name) (d : Bytes) : List Sys := freshWrite tmp d ++ [.link tmp final, .remove tmp]
+
 /-- `YAMLAccountManager.Update` with a changed login: rename the file, then replace it atomically. -/
-def renameUpdate (tmp old new : Name) (d : Bytes) : List Sys := .rename old new :: tempRename tmp new d
+def freshRenameUpdate (tmp old new : Name) (d : Bytes) : List Sys := .rename old new :: freshTempRename tmp new d
 
 /-- `YAMLAccountManager.Update` as a whole: same login → atomic replace; changed login → refused without any
     call when the new login already exists (`fix: 5d2c023`; the code tests its in-memory table, which agrees
     with the directory – C15), otherwise rename + atomic replace. -/
 def updateProg (tmp : Name) (fs : FS) (old new : Name) (d : Bytes) : List Sys :=
-  if old = new then tempRename tmp new d
-  else if (get fs new).isSome then []
-  else renameUpdate tmp old new d
+  if old = new then freshTempRename tmp new d
+  else if (ino fs.names new).isSome then []
+  else freshRenameUpdate tmp old new d
 
 /-- NEGATIVE WITNESS program: `os.WriteFile` directly on the live file. -/
 def directWrite (p : Name) (new : Bytes) : List Sys := writeFile p new
@@ -102,10 +136,16 @@ def directWrite (p : Name) (new : Bytes) : List Sys := writeFile p new
 def tempRenameNoTrunc (tmp p : Name) (new : Bytes) : List Sys :=
   [.openKeep tmp, .overwrite tmp new, .close tmp, .rename tmp p]
 
-/-- What a loader that lists the directory sees: the entries whose name passes `vis`. -/
-def view (vis : Name → Bool) (fs : FS) : FS := fs.filter fun e => vis e.1
+/-- What a loader that lists the directory sees: the entries whose name passes `vis`, with their contents. -/
+def viewD (vis : Name → Bool) (data : Nat → Bytes) (d : Dir) : View :=
+  (d.filter fun e => vis e.1).map fun e => (e.1, data e.2)
+
+def view (vis : Name → Bool) (fs : FS) : View := viewD vis fs.data fs.names
 
 def contents (vis : Name → Bool) (fs : FS) : List Bytes := (view vis fs).map (·.2)
+
+/-- value level: give every entry called `p` the content `c` (all other entries untouched) -/
+def setV (v : View) (p : Name) (c : Bytes) : View := v.map fun e => if e.1 = p then (p, c) else e
 
 /-! ### loaders -/
 
@@ -129,149 +169,186 @@ def loadBans {α : Type} (deser : Bytes → Option α) (empty : α) (fs : FS) (p
 def loadAccounts {α : Type} (deser : Bytes → Option α) (fs : FS) : Option (List α) :=
   if (contents isYaml fs).isEmpty then none else (contents isYaml fs).mapM deser
 
-/-! ### namespace lemmas -/
+/-- Build a directory from (name, content) pairs, one inode each (used by the oracle and the examples). -/
+def ofList (l : View) : FS :=
+  ⟨(List.range l.length).zipWith (fun i e => (e.1, i)) l, fun i => (l.getD i ([], [])).2, l.length⟩
 
-theorem get_set_eq (fs : FS) (p : Name) (c : Bytes) : get (set fs p c) p = some c := by
-  induction fs with
-  | nil => simp [set, get]
-  | cons e fs ih =>
-    obtain ⟨q, d⟩ := e
-    by_cases h : q = p <;> simp [set, get, h, ih]
+/-! ### directory lemmas -/
 
-theorem get_set_ne (fs : FS) (p q : Name) (c : Bytes) (h : q ≠ p) : get (set fs p c) q = get fs q := by
-  induction fs with
-  | nil => simp [set, get, Ne.symm h]
-  | cons e fs ih =>
-    obtain ⟨r, d⟩ := e
-    by_cases hr : r = p
-    · subst hr; simp [set, get, Ne.symm h]
-    · by_cases hq : r = q
-      · subst hq; simp [set, get, hr]
-      · simp [set, get, hr, hq, ih]
-
-theorem set_set (fs : FS) (p : Name) (c d : Bytes) : set (set fs p c) p d = set fs p d := by
-  induction fs with
-  | nil => simp [set]
-  | cons e fs ih =>
-    obtain ⟨q, x⟩ := e
-    by_cases h : q = p <;> simp [set, h, ih]
-
-theorem get_erase_eq (fs : FS) (p : Name) : get (erase fs p) p = none := by
-  induction fs with
-  | nil => simp [erase, get]
-  | cons e fs ih =>
-    obtain ⟨q, d⟩ := e
+theorem ino_eraseN_eq (d : Dir) (p : Name) : ino (eraseN d p) p = none := by
+  induction d with
+  | nil => rfl
+  | cons e d ih =>
+    obtain ⟨q, i⟩ := e
     by_cases h : q = p
-    · simp only [erase, List.filter_cons, h, beq_self_eq_true, Bool.not_true]
-      simpa [erase] using ih
+    · subst h; simpa [eraseN] using ih
     · have hb : (q == p) = false := by simpa using h
-      simp only [erase, List.filter_cons, hb, Bool.not_false, if_true, get, h, if_false]
-      simpa [erase] using ih
+      simp only [eraseN, List.filter_cons, hb, Bool.not_false, if_true, ino, h, if_false]
+      simpa [eraseN] using ih
 
-theorem get_erase_ne (fs : FS) (p q : Name) (h : q ≠ p) : get (erase fs p) q = get fs q := by
-  induction fs with
-  | nil => simp [erase, get]
-  | cons e fs ih =>
-    obtain ⟨r, d⟩ := e
+theorem ino_eraseN_ne (d : Dir) (p q : Name) (h : q ≠ p) : ino (eraseN d p) q = ino d q := by
+  induction d with
+  | nil => rfl
+  | cons e d ih =>
+    obtain ⟨r, i⟩ := e
     by_cases hr : r = p
     · subst hr
-      simp only [erase, List.filter_cons, beq_self_eq_true, Bool.not_true, get, Ne.symm h, if_false]
-      simpa [erase] using ih
+      have : ino ((r, i) :: d) q = ino d q := by simp [ino, Ne.symm h]
+      rw [this]; simpa [eraseN] using ih
     · have hb : (r == p) = false := by simpa using hr
-      simp only [erase, List.filter_cons, hb, Bool.not_false, if_true, get]
+      simp only [eraseN, List.filter_cons, hb, Bool.not_false, if_true, ino]
       by_cases hq : r = q
       · simp [hq]
-      · simp only [hq, if_false]; simpa [erase] using ih
+      · simp only [hq, if_false]; simpa [eraseN] using ih
 
-theorem get_renameKey_new (fs : FS) (a b : Name) (hab : a ≠ b) (hb : get fs b = none) :
-    get (renameKey fs a b) b = get fs a := by
-  induction fs with
-  | nil => simp [renameKey, get]
-  | cons e fs ih =>
-    obtain ⟨q, d⟩ := e
+theorem ino_append (d : Dir) (t q : Name) (n : Nat) :
+    ino (d ++ [(t, n)]) q = match ino d q with
+      | some i => some i
+      | none => if t = q then some n else none := by
+  induction d with
+  | nil => simp [ino]
+  | cons e d ih =>
+    obtain ⟨r, i⟩ := e
+    by_cases hr : r = q
+    · simp [ino, hr]
+    · simp [ino, hr, ih]
+
+theorem ino_replN_eq (d : Dir) (p : Name) (i : Nat) (h : ino d p ≠ none) : ino (replN d p i) p = some i := by
+  induction d with
+  | nil => simp [ino] at h
+  | cons e d ih =>
+    obtain ⟨q, j⟩ := e
+    by_cases hq : q = p
+    · simp [replN, ino, hq]
+    · have h' : ino d p ≠ none := by simpa [ino, hq] using h
+      have := ih h'
+      simp only [replN] at this
+      simp [replN, ino, hq, this]
+
+theorem ino_replN_ne (d : Dir) (p q : Name) (i : Nat) (h : q ≠ p) : ino (replN d p i) q = ino d q := by
+  induction d with
+  | nil => rfl
+  | cons e d ih =>
+    obtain ⟨r, j⟩ := e
+    simp only [replN] at ih
+    by_cases hr : r = p
+    · subst hr; simp [replN, ino, Ne.symm h, ih]
+    · by_cases hq : r = q
+      · subst hq; simp [replN, ino, hr]
+      · simp [replN, ino, hr, hq, ih]
+
+theorem ino_renN_new (d : Dir) (a b : Name) (hab : a ≠ b) (hb : ino d b = none) : ino (renN d a b) b = ino d a := by
+  induction d with
+  | nil => rfl
+  | cons e d ih =>
+    obtain ⟨q, j⟩ := e
     by_cases hq : q = a
-    · subst hq; simp [renameKey, get]
-    · have hqb : q ≠ b := by
-        intro h; subst h; simp [get] at hb
-      have hb' : get fs b = none := by simpa [get, hqb] using hb
+    · subst hq; simp [renN, ino]
+    · have hqb : q ≠ b := by intro h; subst h; simp [ino] at hb
+      have hb' : ino d b = none := by simpa [ino, hqb] using hb
       have := ih hb'
-      simp only [renameKey] at this
-      simp [renameKey, get, hq, hqb, this]
+      simp only [renN] at this
+      simp [renN, ino, hq, hqb, this]
 
-theorem get_renameKey_other (fs : FS) (a b q : Name) (ha : q ≠ a) (hb : q ≠ b) :
-    get (renameKey fs a b) q = get fs q := by
-  induction fs with
-  | nil => simp [renameKey, get]
-  | cons e fs ih =>
-    obtain ⟨r, d⟩ := e
-    simp only [renameKey] at ih
+theorem ino_renN_other (d : Dir) (a b q : Name) (ha : q ≠ a) (hb : q ≠ b) : ino (renN d a b) q = ino d q := by
+  induction d with
+  | nil => rfl
+  | cons e d ih =>
+    obtain ⟨r, j⟩ := e
+    simp only [renN] at ih
     by_cases hr : r = a
-    · subst hr; simp [renameKey, get, Ne.symm hb, Ne.symm ha, ih]
+    · subst hr; simp [renN, ino, Ne.symm hb, Ne.symm ha, ih]
     · by_cases hrq : r = q
-      · subst hrq; simp [renameKey, get, hr]
-      · simp [renameKey, get, hr, hrq, ih]
+      · subst hrq; simp [renN, ino, hr]
+      · simp [renN, ino, hr, hrq, ih]
 
-theorem view_set_invisible (vis : Name → Bool) (fs : FS) (p : Name) (c : Bytes) (h : vis p = false) :
-    view vis (set fs p c) = view vis fs := by
-  induction fs with
-  | nil => simp [set, view, h]
-  | cons e fs ih =>
-    obtain ⟨q, d⟩ := e
-    by_cases hq : q = p
-    · subst hq; simp [set, view, h]
-    · simp only [view] at ih
-      simp [set, view, hq, List.filter_cons, ih]
+theorem mem_eraseN {d : Dir} {p : Name} {e : Name × Nat} (h : e ∈ eraseN d p) : e ∈ d :=
+  (List.mem_filter.mp h).1
 
-theorem view_erase_invisible (vis : Name → Bool) (fs : FS) (p : Name) (h : vis p = false) :
-    view vis (erase fs p) = view vis fs := by
-  induction fs with
-  | nil => simp [erase, view]
-  | cons e fs ih =>
-    obtain ⟨q, d⟩ := e
-    simp only [view, erase] at ih
+theorem eraseN_append_self (d : Dir) (t : Name) (n : Nat) : eraseN (d ++ [(t, n)]) t = eraseN d t := by
+  simp [eraseN, List.filter_append]
+
+theorem eraseN_eraseN (d : Dir) (t : Name) : eraseN (eraseN d t) t = eraseN d t := by
+  simp [eraseN, List.filter_filter]
+
+theorem replN_append_ne (d : Dir) (t p : Name) (n i : Nat) (h : t ≠ p) :
+    replN (d ++ [(t, n)]) p i = replN d p i ++ [(t, n)] := by
+  simp [replN, h]
+
+theorem eraseN_replN (d : Dir) (t p : Name) (i : Nat) (h : t ≠ p) :
+    eraseN (replN d p i) t = replN (eraseN d t) p i := by
+  induction d with
+  | nil => rfl
+  | cons e d ih =>
+    obtain ⟨q, j⟩ := e
+    simp only [eraseN, replN] at ih
     by_cases hq : q = p
-    · subst hq; simp [erase, view, h, ih]
+    · subst hq
+      have hb : (q == t) = false := by simpa using (Ne.symm h)
+      simp [eraseN, replN, hb, ih]
+    · by_cases hqt : q = t
+      · subst hqt; simp [eraseN, replN, hq, ih]
+      · have hb : (q == t) = false := by simpa using hqt
+        simp [eraseN, replN, hq, hb, ih]
+
+/-! ### view lemmas -/
+
+theorem viewD_eraseN_invisible (vis : Name → Bool) (data : Nat → Bytes) (d : Dir) (p : Name) (h : vis p = false) :
+    viewD vis data (eraseN d p) = viewD vis data d := by
+  induction d with
+  | nil => rfl
+  | cons e d ih =>
+    obtain ⟨q, i⟩ := e
+    simp only [viewD, eraseN, List.filter_filter] at ih
+    by_cases hq : q = p
+    · subst hq; simp [viewD, eraseN, h, List.filter_filter, ih]
     · have hb : (q == p) = false := by simpa using hq
-      simp only [erase, view, List.filter_cons, hb, Bool.not_false, if_true]
-      rw [ih]
+      simp only [viewD, eraseN, List.filter_cons, hb, Bool.not_false, if_true]
+      cases hv : vis q <;> simp [List.filter_filter, ih]
 
-theorem view_append (vis : Name → Bool) (a b : FS) : view vis (a ++ b) = view vis a ++ view vis b := by
-  simp [view]
+theorem viewD_append (vis : Name → Bool) (data : Nat → Bytes) (a b : Dir) :
+    viewD vis data (a ++ b) = viewD vis data a ++ viewD vis data b := by
+  simp [viewD]
 
-/-- Writing an invisible file first does not change what a later visible write looks like. -/
-theorem view_set_after_invisible (vis : Name → Bool) (fs : FS) (t p : Name) (c d : Bytes)
-    (ht : vis t = false) (hne : t ≠ p) :
-    view vis (set (set fs t c) p d) = view vis (set fs p d) := by
-  induction fs with
-  | nil => simp [set, view, hne, ht]
-  | cons e fs ih =>
-    obtain ⟨q, x⟩ := e
-    simp only [view] at ih
-    by_cases hqt : q = t
-    · subst hqt; simp [set, view, hne, ht]
-    · by_cases hqp : q = p
-      · subst hqp
-        have := view_set_invisible vis fs t c ht
-        simp only [view] at this
-        simp [set, view, hqt, List.filter_cons, this]
-      · simp [set, view, hqt, hqp, List.filter_cons, ih]
+theorem viewD_congr (vis : Name → Bool) (data data' : Nat → Bytes) (d : Dir)
+    (h : ∀ e ∈ d, data' e.2 = data e.2) : viewD vis data' d = viewD vis data d := by
+  induction d with
+  | nil => rfl
+  | cons e d ih =>
+    have h1 := h e (by simp)
+    have h2 := ih (fun x hx => h x (by simp [hx]))
+    simp only [viewD] at h2
+    simp only [viewD, List.filter_cons]
+    cases hv : vis e.1 <;> simp [h1, h2]
 
-theorem contents_renameKey (vis : Name → Bool) (fs : FS) (a b : Name) (h : vis a = vis b) :
-    contents vis (renameKey fs a b) = contents vis fs := by
-  induction fs with
-  | nil => simp [contents, view, renameKey]
-  | cons e fs ih =>
-    obtain ⟨q, d⟩ := e
-    simp only [contents, view, renameKey] at ih
+theorem viewD_replN (vis : Name → Bool) (data : Nat → Bytes) (d : Dir) (p : Name) (i : Nat) :
+    viewD vis data (replN d p i) = setV (viewD vis data d) p (data i) := by
+  induction d with
+  | nil => rfl
+  | cons e d ih =>
+    obtain ⟨q, j⟩ := e
+    simp only [viewD, replN, setV] at ih
+    by_cases hq : q = p
+    · subst hq
+      cases hv : vis q <;> simp [viewD, replN, setV, hv, ih]
+    · cases hv : vis q <;> simp [viewD, replN, setV, hq, hv, ih]
+
+theorem contents_renN (vis : Name → Bool) (data : Nat → Bytes) (d : Dir) (a b : Name) (h : vis a = vis b) :
+    (viewD vis data (renN d a b)).map (·.2) = (viewD vis data d).map (·.2) := by
+  induction d with
+  | nil => rfl
+  | cons e d ih =>
+    obtain ⟨q, j⟩ := e
+    simp only [viewD, renN] at ih
     by_cases hq : q = a
     · subst hq
-      simp only [contents, view, renameKey, List.map_cons, if_true, List.filter_cons]
+      simp only [viewD, renN, List.map_cons, if_true, List.filter_cons]
       rw [← h]
       cases hv : vis q <;> simp [ih]
-    · simp only [contents, view, renameKey, List.map_cons, hq, if_false, List.filter_cons]
+    · simp only [viewD, renN, List.map_cons, hq, if_false, List.filter_cons]
       cases hv : vis q <;> simp [ih]
 
-/-! ### the state after each prefix of the programs -/
+/-! ### prefixes of programs -/
 
 theorem crash_zero (prog : List Sys) (fs : FS) : crash prog 0 fs = fs := by simp [crash]
 
@@ -282,23 +359,6 @@ theorem crash_ge (prog : List Sys) (k : Nat) (fs : FS) (h : prog.length ≤ k) :
     crash prog k fs = crash prog prog.length fs := by
   simp [crash, List.take_of_length_le h]
 
-/-- The three calls of `os.WriteFile(tmp, d)`, whatever was there before, leave `tmp ↦ d`. -/
-theorem writeFile_done (fs : FS) (tmp : Name) (d : Bytes) :
-    crash (writeFile tmp d) 3 fs = set fs tmp d := by
-  simp [crash, writeFile, apply, get_set_eq, set_set]
-
-/-- States during `os.WriteFile(tmp, …)`: only `tmp` differs from the start. -/
-theorem writeFile_prefix (fs : FS) (tmp : Name) (d : Bytes) (k : Nat) :
-    ∃ c, crash (writeFile tmp d) k fs = set fs tmp c ∨ crash (writeFile tmp d) k fs = fs := by
-  match k with
-  | 0 => exact ⟨[], Or.inr (by simp [crash])⟩
-  | 1 => exact ⟨[], Or.inl (by simp [crash, writeFile, apply])⟩
-  | 2 => exact ⟨d, Or.inl (by simp [crash, writeFile, apply, get_set_eq, set_set])⟩
-  | k + 3 =>
-    refine ⟨d, Or.inl ?_⟩
-    rw [crash_ge _ _ _ (by simp [writeFile])]
-    exact writeFile_done fs tmp d
-
 theorem crash_append_le (a b : List Sys) (k : Nat) (fs : FS) (h : k ≤ a.length) :
     crash (a ++ b) k fs = crash a k fs := by
   simp [crash, List.take_append_of_le_length h]
@@ -308,186 +368,453 @@ theorem crash_append_ge (a b : List Sys) (k : Nat) (fs : FS) :
   have : List.take (a.length + k) a = a := List.take_of_length_le (by omega)
   simp [crash, List.take_append, List.foldl_append, this]
 
-/-- get-level atomicity of write-temp-then-rename, for every crash point, every prior state
-    (stale temp file, target absent or present): the target holds the old or the new content, the new
-    one once all four calls are done; every other file except the temp is untouched. -/
-theorem tempRename_get (fs : FS) (tmp p : Name) (new : Bytes) (hne : tmp ≠ p) (k : Nat) :
-    (get (crash (tempRename tmp p new) k fs) p = get fs p ∨
-      get (crash (tempRename tmp p new) k fs) p = some new) ∧
-    (4 ≤ k → get (crash (tempRename tmp p new) k fs) p = some new) ∧
-    (∀ q, q ≠ p → q ≠ tmp → get (crash (tempRename tmp p new) k fs) q = get fs q) := by
-  by_cases hk : k ≤ 3
-  · have hpre : crash (tempRename tmp p new) k fs = crash (writeFile tmp new) k fs :=
-      crash_append_le _ _ _ _ (by simpa [writeFile] using hk)
-    obtain ⟨c, hc⟩ := writeFile_prefix fs tmp new k
-    rw [hpre]
-    rcases hc with hc | hc <;> rw [hc]
-    · refine ⟨Or.inl (get_set_ne _ _ _ _ (Ne.symm hne)), by omega, ?_⟩
-      intro q _ hq; exact get_set_ne _ _ _ _ hq
-    · exact ⟨Or.inl rfl, by omega, fun _ _ _ => rfl⟩
-  · have hk4 : 4 ≤ k := by omega
-    have hfull : crash (tempRename tmp p new) k fs = apply (set fs tmp new) (.rename tmp p) := by
-      rw [crash_ge _ _ _ (by simpa [tempRename, writeFile] using hk4)]
-      have := crash_append_ge (writeFile tmp new) [.rename tmp p] 1 fs
-      simp only [writeFile, List.length_cons, List.length_nil] at this
-      simp only [tempRename, writeFile, List.length_cons, List.length_nil, List.length_append]
-      rw [this]
-      have h3 := writeFile_done fs tmp new
-      simp only [writeFile] at h3
-      rw [h3]
-      simp [crash]
-    rw [hfull]
-    simp only [apply, get_set_eq, hne, if_false]
-    have hp : get (set fs tmp new) p = get fs p := get_set_ne _ _ _ _ (Ne.symm hne)
-    cases hgp : get fs p with
-    | some c0 =>
-      rw [hp, hgp]
-      simp only
-      have h1 : get (erase (set (set fs tmp new) p new) tmp) p = some new := by
-        rw [get_erase_ne _ _ _ (Ne.symm hne), get_set_eq]
-      refine ⟨Or.inr h1, fun _ => h1, ?_⟩
-      intro q hq hqt
-      rw [get_erase_ne _ _ _ hqt, get_set_ne _ _ _ _ hq, get_set_ne _ _ _ _ hqt]
-    | none =>
-      rw [hp, hgp]
-      simp only
-      have hb : get (set fs tmp new) p = none := by rw [hp, hgp]
-      have h1 : get (renameKey (set fs tmp new) tmp p) p = some new := by
-        rw [get_renameKey_new _ _ _ hne hb, get_set_eq]
-      refine ⟨Or.inr h1, fun _ => h1, ?_⟩
-      intro q hq hqt
-      rw [get_renameKey_other _ _ _ _ hqt hq, get_set_ne _ _ _ _ hqt]
+theorem ino_lt (d : Dir) (n : Nat) (hd : ∀ e ∈ d, e.2 < n) (a : Name) (i : Nat) (h : ino d a = some i) : i < n := by
+  induction d with
+  | nil => simp [ino] at h
+  | cons y d ih =>
+    obtain ⟨q, j⟩ := y
+    by_cases hq : q = a
+    · simp only [ino, hq, if_true, Option.some.injEq] at h
+      subst h; exact hd (q, j) (by simp)
+    · simp only [ino, hq, if_false] at h
+      exact ih (fun e he => hd e (by simp [he])) h
 
-/-- view-level atomicity (for loaders that list a directory): with an invisible temp name and an
-    existing target, what the loader sees is the old directory or the directory with the target's
-    content replaced – in place, all other entries identical. -/
-theorem tempRename_view (vis : Name → Bool) (fs : FS) (tmp p : Name) (new : Bytes)
-    (hvis : vis tmp = false) (hne : tmp ≠ p) (hex : get fs p ≠ none) (k : Nat) :
-    (view vis (crash (tempRename tmp p new) k fs) = view vis fs ∨
-      view vis (crash (tempRename tmp p new) k fs) = view vis (set fs p new)) ∧
-    (4 ≤ k → view vis (crash (tempRename tmp p new) k fs) = view vis (set fs p new)) := by
-  by_cases hk : k ≤ 3
-  · have hpre : crash (tempRename tmp p new) k fs = crash (writeFile tmp new) k fs :=
-      crash_append_le _ _ _ _ (by simpa [writeFile] using hk)
-    obtain ⟨c, hc⟩ := writeFile_prefix fs tmp new k
+theorem wf_append_fresh (fs : FS) (p : Name) (c : Bytes) (h : WF fs) :
+    WF { names := fs.names ++ [(p, fs.next)], data := upd fs.data fs.next c, next := fs.next + 1 } := by
+  intro e he
+  simp only [List.mem_append, List.mem_singleton] at he
+  rcases he with he | he
+  · have := h e he; simp only; omega
+  · subst he; simp
+
+theorem wf_apply (fs : FS) (s : Sys) (h : WF fs) : WF (apply fs s) := by
+  cases s with
+  | openTrunc p =>
+    simp only [apply]
+    cases ino fs.names p with
+    | some i => exact h
+    | none => exact wf_append_fresh fs p [] h
+  | write p d =>
+    simp only [apply]
+    cases ino fs.names p <;> exact h
+  | close p => exact h
+  | rename a b =>
+    simp only [apply]
+    cases hA : ino fs.names a with
+    | none => exact h
+    | some i =>
+      simp only
+      by_cases hab : a = b
+      · simp only [hab, if_true]; exact h
+      · simp only [hab, if_false]
+        have hi : i < fs.next := ino_lt fs.names fs.next h a i hA
+        cases ino fs.names b with
+        | some j =>
+          intro e he
+          have he' := mem_eraseN he
+          simp only [replN, List.mem_map] at he'
+          obtain ⟨x, hx, rfl⟩ := he'
+          by_cases hx1 : x.1 = b
+          · simp only [hx1, if_true]; exact hi
+          · simp only [hx1, if_false]; exact h x hx
+        | none =>
+          intro e he
+          simp only [renN, List.mem_map] at he
+          obtain ⟨x, hx, rfl⟩ := he
+          by_cases hx1 : x.1 = a
+          · simp only [hx1, if_true]; exact h x hx
+          · simp only [hx1, if_false]; exact h x hx
+  | link a b =>
+    simp only [apply]
+    cases hA : ino fs.names a with
+    | none => exact h
+    | some i =>
+      cases ino fs.names b with
+      | some j => exact h
+      | none =>
+        have hi : i < fs.next := ino_lt fs.names fs.next h a i hA
+        intro e he
+        simp only [List.mem_append, List.mem_singleton] at he
+        rcases he with he | he
+        · exact h e he
+        · subst he; exact hi
+  | remove p => intro e he; exact h e (mem_eraseN he)
+  | openKeep p =>
+    simp only [apply]
+    cases ino fs.names p with
+    | some i => exact h
+    | none => exact wf_append_fresh fs p [] h
+  | overwrite p d =>
+    simp only [apply]
+    cases ino fs.names p <;> exact h
+
+theorem wf_crash (prog : List Sys) (k : Nat) (fs : FS) (h : WF fs) : WF (crash prog k fs) := by
+  induction prog generalizing k fs with
+  | nil => simpa [crash] using h
+  | cons s prog ih =>
+    cases k with
+    | zero => simpa [crash] using h
+    | succ k => rw [crash_cons_succ]; exact ih k _ (wf_apply fs s h)
+
+/-! ### inode data lemmas -/
+
+theorem upd_same (f : Nat → Bytes) (i : Nat) (c : Bytes) : upd f i c i = c := by simp [upd]
+
+theorem upd_other (f : Nat → Bytes) (i j : Nat) (c : Bytes) (h : j ≠ i) : upd f i c j = f j := by simp [upd, h]
+
+theorem upd_upd (f : Nat → Bytes) (i : Nat) (a b : Bytes) : upd (upd f i a) i b = upd f i b := by
+  funext j; by_cases h : j = i <;> simp [upd, h]
+
+theorem ino_mem (d : Dir) (q : Name) (i : Nat) (h : ino d q = some i) : (q, i) ∈ d := by
+  induction d with
+  | nil => simp [ino] at h
+  | cons e d ih =>
+    obtain ⟨r, j⟩ := e
+    by_cases hr : r = q
+    · simp only [ino, hr, if_true, Option.some.injEq] at h
+      subst hr; subst h; simp
+    · simp only [ino, hr, if_false] at h
+      exact List.mem_cons_of_mem _ (ih h)
+
+theorem ino_renN_old (d : Dir) (a b : Name) (hab : a ≠ b) : ino (renN d a b) a = none := by
+  induction d with
+  | nil => rfl
+  | cons e d ih =>
+    obtain ⟨q, j⟩ := e
+    simp only [renN] at ih
+    by_cases hq : q = a
+    · subst hq; simp [renN, ino, Ne.symm hab, ih]
+    · simp [renN, ino, hq, ih]
+
+/-! ### the account programs (`fix: 57e02c9`): the temp file always gets an inode of its own -/
+
+/-- The directory as seen by a loader that does not look at `tmp`, after `tmp` was re-created on a fresh inode. -/
+theorem view_fresh (vis : Name → Bool) (fs : FS) (hwf : WF fs) (tmp : Name) (c : Bytes) (hvis : vis tmp = false) :
+    viewD vis (upd fs.data fs.next c) (eraseN fs.names tmp ++ [(tmp, fs.next)]) = view vis fs := by
+  rw [viewD_append]
+  have h2 : viewD vis (upd fs.data fs.next c) [(tmp, fs.next)] = [] := by simp [viewD, hvis]
+  rw [h2, List.append_nil]
+  have h1 : viewD vis (upd fs.data fs.next c) (eraseN fs.names tmp) = viewD vis fs.data (eraseN fs.names tmp) := by
+    apply viewD_congr
+    intro e he
+    have := hwf e (mem_eraseN he)
+    exact upd_other _ _ _ _ (by omega)
+  rw [h1, viewD_eraseN_invisible vis fs.data fs.names tmp hvis]
+  rfl
+
+theorem freshWrite_at1 (fs : FS) (tmp : Name) (d : Bytes) :
+    crash (freshWrite tmp d) 1 fs = { fs with names := eraseN fs.names tmp } := by
+  simp [crash, freshWrite, apply]
+
+theorem freshWrite_at2 (fs : FS) (tmp : Name) (d : Bytes) :
+    crash (freshWrite tmp d) 2 fs =
+      ⟨eraseN fs.names tmp ++ [(tmp, fs.next)], upd fs.data fs.next [], fs.next + 1⟩ := by
+  simp [crash, freshWrite, writeFile, apply, ino_eraseN_eq]
+
+theorem freshWrite_done (fs : FS) (tmp : Name) (d : Bytes) :
+    crash (freshWrite tmp d) 4 fs =
+      ⟨eraseN fs.names tmp ++ [(tmp, fs.next)], upd fs.data fs.next d, fs.next + 1⟩ := by
+  have hi : ino (eraseN fs.names tmp ++ [(tmp, fs.next)]) tmp = some fs.next := by
+    rw [ino_append, ino_eraseN_eq]; simp
+  simp [crash, freshWrite, writeFile, apply, ino_eraseN_eq, hi, upd_upd, upd_same]
+
+theorem freshWrite_at3 (fs : FS) (tmp : Name) (d : Bytes) :
+    crash (freshWrite tmp d) 3 fs = crash (freshWrite tmp d) 4 fs := by
+  simp [crash, freshWrite, writeFile, apply]
+
+/-- While the temp file is being written (any prefix of `freshWrite`), a loader that ignores `tmp` sees
+    exactly what it saw before – whatever `tmp` was linked to. -/
+theorem freshWrite_prefix_view (vis : Name → Bool) (fs : FS) (hwf : WF fs) (tmp : Name) (d : Bytes)
+    (hvis : vis tmp = false) (k : Nat) : view vis (crash (freshWrite tmp d) k fs) = view vis fs := by
+  match k with
+  | 0 => simp [crash]
+  | 1 =>
+    rw [freshWrite_at1]
+    exact viewD_eraseN_invisible vis fs.data fs.names tmp hvis
+  | 2 => rw [freshWrite_at2]; exact view_fresh vis fs hwf tmp [] hvis
+  | 3 => rw [freshWrite_at3, freshWrite_done]; exact view_fresh vis fs hwf tmp d hvis
+  | k + 4 =>
+    rw [crash_ge _ _ _ (by simp [freshWrite, writeFile])]
+    have : (freshWrite tmp d).length = 4 := by simp [freshWrite, writeFile]
+    rw [this, freshWrite_done]; exact view_fresh vis fs hwf tmp d hvis
+
+theorem freshTempRename_view (vis : Name → Bool) (fs : FS) (hwf : WF fs) (tmp p : Name) (new : Bytes)
+    (hvis : vis tmp = false) (hne : tmp ≠ p) (hex : ino fs.names p ≠ none) (k : Nat) :
+    (view vis (crash (freshTempRename tmp p new) k fs) = view vis fs ∨
+      view vis (crash (freshTempRename tmp p new) k fs) = setV (view vis fs) p new) ∧
+    (5 ≤ k → view vis (crash (freshTempRename tmp p new) k fs) = setV (view vis fs) p new) := by
+  by_cases hk : k ≤ 4
+  · have hpre : crash (freshTempRename tmp p new) k fs = crash (freshWrite tmp new) k fs :=
+      crash_append_le _ _ _ _ (by simpa [freshWrite, writeFile] using hk)
     rw [hpre]
-    rcases hc with hc | hc <;> rw [hc]
-    · exact ⟨Or.inl (view_set_invisible vis fs tmp c hvis), by omega⟩
-    · exact ⟨Or.inl rfl, by omega⟩
-  · have hk4 : 4 ≤ k := by omega
-    have hfull : crash (tempRename tmp p new) k fs = apply (set fs tmp new) (.rename tmp p) := by
-      rw [crash_ge _ _ _ (by simpa [tempRename, writeFile] using hk4)]
-      have := crash_append_ge (writeFile tmp new) [.rename tmp p] 1 fs
-      simp only [writeFile, List.length_cons, List.length_nil] at this
-      simp only [tempRename, writeFile, List.length_cons, List.length_nil, List.length_append]
-      rw [this]
-      have h3 := writeFile_done fs tmp new
-      simp only [writeFile] at h3
-      rw [h3]
+    exact ⟨Or.inl (freshWrite_prefix_view vis fs hwf tmp new hvis k), by omega⟩
+  · have hfull : crash (freshTempRename tmp p new) k fs =
+        apply ⟨eraseN fs.names tmp ++ [(tmp, fs.next)], upd fs.data fs.next new, fs.next + 1⟩ (.rename tmp p) := by
+      rw [crash_ge _ _ _ (by simp [freshTempRename, freshWrite, writeFile]; omega)]
+      have := crash_append_ge (freshWrite tmp new) [.rename tmp p] 1 fs
+      have hl : (freshWrite tmp new).length = 4 := by simp [freshWrite, writeFile]
+      rw [hl] at this
+      have hl2 : (freshTempRename tmp p new).length = 4 + 1 := by simp [freshTempRename, freshWrite, writeFile]
+      rw [hl2]
+      simp only [freshTempRename]
+      rw [this, freshWrite_done]
       simp [crash]
-    have hp : get (set fs tmp new) p = get fs p := get_set_ne _ _ _ _ (Ne.symm hne)
-    obtain ⟨c0, hc0⟩ := Option.ne_none_iff_exists'.mp hex
-    have : view vis (crash (tempRename tmp p new) k fs) = view vis (set fs p new) := by
+    obtain ⟨i0, hi0⟩ := Option.ne_none_iff_exists'.mp hex
+    have htmp : ino (eraseN fs.names tmp ++ [(tmp, fs.next)]) tmp = some fs.next := by
+      rw [ino_append, ino_eraseN_eq]; simp
+    have hp : ino (eraseN fs.names tmp ++ [(tmp, fs.next)]) p = some i0 := by
+      rw [ino_append, ino_eraseN_ne _ _ _ (Ne.symm hne), hi0]
+    have hnames : eraseN (replN (eraseN fs.names tmp ++ [(tmp, fs.next)]) p fs.next) tmp
+        = replN (eraseN fs.names tmp) p fs.next := by
+      rw [replN_append_ne _ _ _ _ _ hne, eraseN_append_self, eraseN_replN _ _ _ _ hne, eraseN_eraseN]
+    have hv : view vis (crash (freshTempRename tmp p new) k fs) = setV (view vis fs) p new := by
       rw [hfull]
-      simp only [apply, get_set_eq, hne, if_false, hp, hc0]
-      rw [view_erase_invisible vis _ tmp hvis, view_set_after_invisible vis fs tmp p new new hvis hne]
-    exact ⟨Or.inr this, fun _ => this⟩
+      simp only [apply, htmp, hne, if_false, hp, hnames, view]
+      rw [viewD_replN, upd_same]
+      congr 1
+      have h1 : viewD vis (upd fs.data fs.next new) (eraseN fs.names tmp) = viewD vis fs.data (eraseN fs.names tmp) := by
+        apply viewD_congr
+        intro e he
+        have := hwf e (mem_eraseN he)
+        exact upd_other _ _ _ _ (by omega)
+      rw [h1, viewD_eraseN_invisible vis fs.data fs.names tmp hvis]
+    exact ⟨Or.inr hv, fun _ => hv⟩
 
-/-- Account creation: the loader sees the old directory until the `link`, and from then on the old
-    directory plus the complete new file; a leftover temp file is never seen. -/
-theorem createLink_view (vis : Name → Bool) (fs : FS) (tmp final : Name) (d : Bytes)
-    (hvis : vis tmp = false) (hne : tmp ≠ final) (hnew : get fs final = none) (k : Nat) :
-    (k ≤ 3 → view vis (crash (createLink tmp final d) k fs) = view vis fs) ∧
-    (4 ≤ k → view vis (crash (createLink tmp final d) k fs) = view vis (fs ++ [(final, d)])) := by
+/-- Account creation: the loader sees the old directory until the `link`, and from then on the old directory
+    plus the complete new file; a left-over temp name – even one still linked to an account file – is never
+    written through. -/
+theorem freshCreateLink_view (vis : Name → Bool) (fs : FS) (hwf : WF fs) (tmp final : Name) (d : Bytes)
+    (hvis : vis tmp = false) (hne : tmp ≠ final) (hnew : ino fs.names final = none) (k : Nat) :
+    (k ≤ 4 → view vis (crash (freshCreateLink tmp final d) k fs) = view vis fs) ∧
+    (5 ≤ k → view vis (crash (freshCreateLink tmp final d) k fs) =
+        view vis fs ++ (if vis final then [(final, d)] else [])) := by
+  have hl : (freshWrite tmp d).length = 4 := by simp [freshWrite, writeFile]
+  have htmp : ino (eraseN fs.names tmp ++ [(tmp, fs.next)]) tmp = some fs.next := by
+    rw [ino_append, ino_eraseN_eq]; simp
+  have hfin : ino (eraseN fs.names tmp ++ [(tmp, fs.next)]) final = none := by
+    rw [ino_append, ino_eraseN_ne _ _ _ (Ne.symm hne), hnew]; simp [hne]
+  have hlink : apply ⟨eraseN fs.names tmp ++ [(tmp, fs.next)], upd fs.data fs.next d, fs.next + 1⟩ (.link tmp final)
+      = ⟨eraseN fs.names tmp ++ [(tmp, fs.next)] ++ [(final, fs.next)], upd fs.data fs.next d, fs.next + 1⟩ := by
+    simp [apply, htmp, hfin]
+  have hv5 : viewD vis (upd fs.data fs.next d) (eraseN fs.names tmp ++ [(tmp, fs.next)] ++ [(final, fs.next)])
+      = view vis fs ++ (if vis final then [(final, d)] else []) := by
+    rw [viewD_append, view_fresh vis fs hwf tmp d hvis]
+    congr 1
+    cases hvf : vis final <;> simp [viewD, hvf, upd_same]
   constructor
   · intro hk
-    have hpre : crash (createLink tmp final d) k fs = crash (writeFile tmp d) k fs :=
-      crash_append_le _ _ _ _ (by simpa [writeFile] using hk)
-    obtain ⟨c, hc⟩ := writeFile_prefix fs tmp d k
-    rw [hpre]
-    rcases hc with hc | hc <;> rw [hc]
-    · exact view_set_invisible vis fs tmp c hvis
+    have hpre : crash (freshCreateLink tmp final d) k fs = crash (freshWrite tmp d) k fs :=
+      crash_append_le _ _ _ _ (by rw [hl]; exact hk)
+    rw [hpre]; exact freshWrite_prefix_view vis fs hwf tmp d hvis k
   · intro hk
-    have h3 := writeFile_done fs tmp d
-    have hfin : get (set fs tmp d) final = none := by rw [get_set_ne _ _ _ _ (Ne.symm hne)]; exact hnew
-    have hlink : apply (set fs tmp d) (.link tmp final) = set fs tmp d ++ [(final, d)] := by
-      simp [apply, get_set_eq, hfin]
-    have hv4 : view vis (set fs tmp d ++ [(final, d)]) = view vis (fs ++ [(final, d)]) := by
-      rw [view_append, view_append, view_set_invisible vis fs tmp d hvis]
-    by_cases h4 : k = 4
-    · subst h4
-      have : crash (createLink tmp final d) 4 fs = apply (set fs tmp d) (.link tmp final) := by
-        have := crash_append_ge (writeFile tmp d) [.link tmp final, .remove tmp] 1 fs
-        simp only [writeFile, List.length_cons, List.length_nil] at this
-        simp only [createLink, writeFile]
-        rw [this]
-        simp only [writeFile] at h3
-        rw [h3]
+    by_cases h5 : k = 5
+    · subst h5
+      have := crash_append_ge (freshWrite tmp d) [.link tmp final, .remove tmp] 1 fs
+      rw [hl] at this
+      simp only [freshCreateLink]
+      rw [this, freshWrite_done]
+      have : crash [Sys.link tmp final, Sys.remove tmp] 1
+          ⟨eraseN fs.names tmp ++ [(tmp, fs.next)], upd fs.data fs.next d, fs.next + 1⟩
+          = apply ⟨eraseN fs.names tmp ++ [(tmp, fs.next)], upd fs.data fs.next d, fs.next + 1⟩ (.link tmp final) := by
         simp [crash]
-      rw [this, hlink, hv4]
-    · have : crash (createLink tmp final d) k fs = erase (apply (set fs tmp d) (.link tmp final)) tmp := by
-        rw [crash_ge _ _ _ (by simp [createLink, writeFile]; omega)]
-        have := crash_append_ge (writeFile tmp d) [.link tmp final, .remove tmp] 2 fs
-        simp only [writeFile, List.length_cons, List.length_nil] at this
-        simp only [createLink, writeFile, List.length_cons, List.length_nil, List.length_append]
-        rw [this]
-        simp only [writeFile] at h3
-        rw [h3]
-        simp [crash, apply]
-      rw [this, hlink, view_erase_invisible vis _ tmp hvis, hv4]
+      rw [this, hlink]
+      exact hv5
+    · rw [crash_ge _ _ _ (by simp [freshCreateLink, freshWrite, writeFile]; omega)]
+      have := crash_append_ge (freshWrite tmp d) [.link tmp final, .remove tmp] 2 fs
+      rw [hl] at this
+      have hl2 : (freshCreateLink tmp final d).length = 4 + 2 := by simp [freshCreateLink, freshWrite, writeFile]
+      rw [hl2]
+      simp only [freshCreateLink]
+      rw [this, freshWrite_done]
+      have : crash [Sys.link tmp final, Sys.remove tmp] 2
+          ⟨eraseN fs.names tmp ++ [(tmp, fs.next)], upd fs.data fs.next d, fs.next + 1⟩
+          = apply (apply ⟨eraseN fs.names tmp ++ [(tmp, fs.next)], upd fs.data fs.next d, fs.next + 1⟩ (.link tmp final))
+              (.remove tmp) := by
+        simp [crash]
+      rw [this, hlink]
+      simp only [apply, view]
+      rw [viewD_eraseN_invisible vis _ _ tmp hvis]
+      exact hv5
 
-/-- Account rename + update: after the first call the file has its new NAME but still the complete
-    OLD content, so a loader that keys accounts by the login inside the file loads the old value. -/
-theorem renameUpdate_contents (vis : Name → Bool) (fs : FS) (tmp old new : Name) (d : Bytes)
+/-- Account rename + update: after the first call the file has its new NAME but still the complete OLD
+    content, so a loader that keys accounts by the login inside the file loads the old value. -/
+theorem freshRenameUpdate_contents (vis : Name → Bool) (fs : FS) (hwf : WF fs) (tmp old new : Name) (d : Bytes)
     (hvis : vis tmp = false) (hvo : vis old = vis new) (hto : tmp ≠ new) (hon : old ≠ new)
-    (hold : get fs old ≠ none) (hnew : get fs new = none) (k : Nat) :
-    (contents vis (crash (renameUpdate tmp old new d) k fs) = contents vis fs ∨
-      contents vis (crash (renameUpdate tmp old new d) k fs) = contents vis (set (renameKey fs old new) new d)) ∧
-    (5 ≤ k → contents vis (crash (renameUpdate tmp old new d) k fs) = contents vis (set (renameKey fs old new) new d)) := by
+    (hold : ino fs.names old ≠ none) (hnew : ino fs.names new = none) (k : Nat) :
+    (contents vis (crash (freshRenameUpdate tmp old new d) k fs) = contents vis fs ∨
+      contents vis (crash (freshRenameUpdate tmp old new d) k fs) =
+        (setV (view vis { fs with names := renN fs.names old new }) new d).map (·.2)) ∧
+    (6 ≤ k → contents vis (crash (freshRenameUpdate tmp old new d) k fs) =
+        (setV (view vis { fs with names := renN fs.names old new }) new d).map (·.2)) := by
   match k with
   | 0 => exact ⟨Or.inl (by simp [crash]), by omega⟩
   | k + 1 =>
-    obtain ⟨c0, hc0⟩ := Option.ne_none_iff_exists'.mp hold
-    have h1 : apply fs (.rename old new) = renameKey fs old new := by
-      simp [apply, hc0, hon, hnew]
-    have hex : get (renameKey fs old new) new ≠ none := by
-      rw [get_renameKey_new fs old new hon hnew, hc0]; simp
-    have hA := tempRename_view vis (renameKey fs old new) tmp new d hvis hto hex k
-    simp only [renameUpdate, crash_cons_succ, h1]
+    obtain ⟨i0, hi0⟩ := Option.ne_none_iff_exists'.mp hold
+    have h1 : apply fs (.rename old new) = { fs with names := renN fs.names old new } := by
+      simp [apply, hi0, hon, hnew]
+    have hwf1 : WF { fs with names := renN fs.names old new } := h1 ▸ wf_apply fs (.rename old new) hwf
+    have hex : ino (renN fs.names old new) new ≠ none := by
+      rw [ino_renN_new fs.names old new hon hnew, hi0]; simp
+    have hA := freshTempRename_view vis { fs with names := renN fs.names old new } hwf1 tmp new d hvis hto hex k
+    simp only [freshRenameUpdate, crash_cons_succ, h1]
+    have hsame : contents vis { fs with names := renN fs.names old new } = contents vis fs :=
+      contents_renN vis fs.data fs.names old new hvo
     refine ⟨?_, ?_⟩
     · rcases hA.1 with h | h
-      · left; simp only [contents, h]; exact contents_renameKey vis fs old new hvo
+      · left; simp only [contents, h]; exact hsame
       · right; simp only [contents, h]
     · intro hk
       simp only [contents, hA.2 (by omega)]
 
-/-! ### name lemmas -/
+/-! ### single-file stores (board, threaded news, ban list): `tempRename` with a private temp file -/
 
-theorem isYaml_account_tmp : isYaml ".account.tmp".toList = false := by decide
+/-- Nothing else is linked to the temp file (no `link` is ever made on these names). -/
+def TmpPrivate (fs : FS) (tmp : Name) : Prop :=
+  ∀ i, ino fs.names tmp = some i → ∀ e ∈ fs.names, e.2 = i → e.1 = tmp
 
-/-- `<anything>.tmp` is not matched by `*.yaml`. -/
-theorem isYaml_dot_tmp (x : Name) : isYaml (x ++ ".tmp".toList) = false := by
-  simp only [isYaml, List.isSuffixOf, List.reverse_append]
-  rfl
+/-- `open(tmp, O_CREAT|O_TRUNC)` with a private temp: afterwards `tmp` has an empty inode `j` of its own and every
+    other name shows what it showed before. -/
+theorem openTrunc_private (fs : FS) (hwf : WF fs) (tmp : Name) (hp : TmpPrivate fs tmp) :
+    ∃ j, ino (apply fs (.openTrunc tmp)).names tmp = some j ∧
+      (apply fs (.openTrunc tmp)).data = upd fs.data j [] ∧
+      (∀ e ∈ (apply fs (.openTrunc tmp)).names, e.2 = j → e.1 = tmp) ∧
+      (∀ q, q ≠ tmp → ino (apply fs (.openTrunc tmp)).names q = ino fs.names q) ∧
+      WF (apply fs (.openTrunc tmp)) := by
+  have hwf' := wf_apply fs (.openTrunc tmp) hwf
+  cases hi : ino fs.names tmp with
+  | some j =>
+    refine ⟨j, ?_, ?_, ?_, ?_, hwf'⟩
+    · simp [apply, hi]
+    · simp [apply, hi]
+    · intro e he hej
+      have : e ∈ fs.names := by simpa [apply, hi] using he
+      exact hp j hi e this hej
+    · intro q _; simp [apply, hi]
+  | none =>
+    refine ⟨fs.next, ?_, ?_, ?_, ?_, hwf'⟩
+    · simp only [apply, hi]; rw [ino_append, hi]; simp
+    · simp [apply, hi]
+    · intro e he hej
+      simp only [apply, hi, List.mem_append, List.mem_singleton] at he
+      rcases he with he | he
+      · have := hwf e he; omega
+      · rw [he]
+    · intro q hq
+      simp only [apply, hi]
+      rw [ino_append]
+      cases ino fs.names q <;> simp [Ne.symm hq]
 
-/-- HAZARD (why the temp name matters): `<anything>.tmp.yaml` IS matched by `*.yaml`. -/
-theorem isYaml_tmp_dot_yaml (x : Name) : isYaml (x ++ ".tmp.yaml".toList) = true := by
-  simp only [isYaml, List.isSuffixOf, List.reverse_append]
-  rfl
+/-- A name other than the private temp shows the same content when only the temp's inode was rewritten. -/
+theorem get_other_private (N : Dir) (f : Nat → Bytes) (j : Nat) (c : Bytes) (tmp q : Name) (hq : q ≠ tmp)
+    (hpriv : ∀ e ∈ N, e.2 = j → e.1 = tmp) : (ino N q).map (upd f j c) = (ino N q).map f := by
+  cases hi : ino N q with
+  | none => rfl
+  | some iq =>
+    have hm := ino_mem N q iq hi
+    have : iq ≠ j := fun h => hq (hpriv (q, iq) hm h)
+    simp [upd_other _ _ _ _ this]
 
-theorem isYaml_login (l : Name) : isYaml (l ++ ".yaml".toList) = true := by
-  simp only [isYaml, List.isSuffixOf, List.reverse_append]
-  rfl
-
-theorem append_tmp_ne (p : Name) : p ++ ".tmp".toList ≠ p := by
-  intro h
-  have := congrArg List.length h
-  simp at this
-
-theorem account_tmp_ne_login (l : Name) : ".account.tmp".toList ≠ l ++ ".yaml".toList := by
-  intro h
-  have h1 : isYaml ".account.tmp".toList = isYaml (l ++ ".yaml".toList) := by rw [h]
-  rw [isYaml_account_tmp, isYaml_login] at h1
-  exact Bool.false_ne_true h1
+/-- get-level atomicity of write-temp-then-rename for every crash point and every prior state in which the temp
+    name is private (absent, or a stale file of its own): the target holds the old or the new content, the new one
+    once all four calls are done; every other file is untouched; and the crash state again has a private temp and
+    is well formed – so the statement applies again to whatever comes next (crash – restart – continue). -/
+theorem tempRename_get (fs : FS) (hwf : WF fs) (tmp p : Name) (new : Bytes) (hne : tmp ≠ p)
+    (hp : TmpPrivate fs tmp) (k : Nat) :
+    (get (crash (tempRename tmp p new) k fs) p = get fs p ∨
+      get (crash (tempRename tmp p new) k fs) p = some new) ∧
+    (4 ≤ k → get (crash (tempRename tmp p new) k fs) p = some new) ∧
+    (∀ q, q ≠ p → q ≠ tmp → get (crash (tempRename tmp p new) k fs) q = get fs q) ∧
+    WF (crash (tempRename tmp p new) k fs) ∧ TmpPrivate (crash (tempRename tmp p new) k fs) tmp := by
+  refine ⟨?_, ?_, ?_, wf_crash _ k fs hwf, ?_⟩ <;>
+  obtain ⟨j, h1, h2, h3, h4, _⟩ := openTrunc_private fs hwf tmp hp <;>
+  obtain ⟨S1, e1⟩ : ∃ S1, S1 = apply fs (.openTrunc tmp) := ⟨_, rfl⟩
+  all_goals
+    rw [← e1] at h1 h2 h3 h4
+    have hS2 : apply S1 (.write tmp new) = { S1 with data := upd fs.data j new } := by
+      simp only [apply, h1]
+      congr 1
+      rw [h2, upd_same, upd_upd]; rfl
+    have hk0 : crash (tempRename tmp p new) 0 fs = fs := by simp [crash]
+    have hk1 : crash (tempRename tmp p new) 1 fs = S1 := by rw [e1]; simp [crash, tempRename, writeFile]
+    have hk2 : crash (tempRename tmp p new) 2 fs = { S1 with data := upd fs.data j new } := by
+      rw [← hS2, e1]; simp [crash, tempRename, writeFile]
+    have hk3 : crash (tempRename tmp p new) 3 fs = { S1 with data := upd fs.data j new } := by
+      rw [← hS2, e1]; simp [crash, tempRename, writeFile, apply]
+    have hk4 : ∀ k, 4 ≤ k → crash (tempRename tmp p new) k fs =
+        apply { S1 with data := upd fs.data j new } (.rename tmp p) := by
+      intro k hk
+      rw [crash_ge _ _ _ (by simpa [tempRename, writeFile] using hk), ← hS2, e1]
+      simp [crash, tempRename, writeFile, apply]
+    -- the state after the rename, in both cases (target present / absent)
+    have hren : ∀ q, get (apply { S1 with data := upd fs.data j new } (.rename tmp p)) q =
+        if q = p then some new else if q = tmp then none else get fs q := by
+      intro q
+      have hpp : ino S1.names p = ino fs.names p := h4 p (Ne.symm hne)
+      cases hip : ino fs.names p with
+      | some i0 =>
+        simp only [apply, h1, hne, if_false, hpp, hip, get]
+        by_cases hq : q = p
+        · subst hq
+          rw [ino_eraseN_ne _ _ _ (Ne.symm hne), ino_replN_eq _ _ _ (by rw [hpp, hip]; simp)]
+          simp [upd_same]
+        · by_cases hqt : q = tmp
+          · subst hqt; simp [hq, ino_eraseN_eq]
+          · simp only [hq, hqt, if_false]
+            rw [ino_eraseN_ne _ _ _ hqt, ino_replN_ne _ _ _ _ hq,
+              get_other_private _ _ _ _ tmp q hqt h3, h4 q hqt]
+      | none =>
+        simp only [apply, h1, hne, if_false, hpp, hip, get]
+        by_cases hq : q = p
+        · subst hq
+          rw [ino_renN_new _ _ _ hne (by rw [hpp, hip]), h1]
+          simp [upd_same]
+        · by_cases hqt : q = tmp
+          · subst hqt; simp [hq, ino_renN_old _ _ _ hne]
+          · simp only [hq, hqt, if_false]
+            rw [ino_renN_other _ _ _ _ hqt hq, get_other_private _ _ _ _ tmp q hqt h3, h4 q hqt]
+    -- a name other than tmp in the states before the rename
+    have hpre1 : ∀ q, q ≠ tmp → get S1 q = get fs q := by
+      intro q hq
+      simp only [get, h2]
+      rw [get_other_private _ _ _ _ tmp q hq h3, h4 q hq]
+    have hpre2 : ∀ q, q ≠ tmp → get { S1 with data := upd fs.data j new } q = get fs q := by
+      intro q hq
+      simp only [get]
+      rw [get_other_private _ _ _ _ tmp q hq h3, h4 q hq]
+  · -- old or new
+    match k with
+    | 0 => left; rw [hk0]
+    | 1 => left; rw [hk1]; exact hpre1 p (Ne.symm hne)
+    | 2 => left; rw [hk2]; exact hpre2 p (Ne.symm hne)
+    | 3 => left; rw [hk3]; exact hpre2 p (Ne.symm hne)
+    | k + 4 => right; rw [hk4 (k + 4) (by omega), hren]; simp
+  · intro hk; rw [hk4 k hk, hren]; simp
+  · intro q hq hqt
+    match k with
+    | 0 => rw [hk0]
+    | 1 => rw [hk1]; exact hpre1 q hqt
+    | 2 => rw [hk2]; exact hpre2 q hqt
+    | 3 => rw [hk3]; exact hpre2 q hqt
+    | k + 4 => rw [hk4 (k + 4) (by omega), hren]; simp [hq, hqt]
+  · -- the temp is private again
+    have hprivS : ∀ (S : FS), S.names = S1.names → TmpPrivate S tmp := by
+      intro S hS i hi e he hei
+      rw [hS] at hi he
+      rw [h1] at hi
+      have : i = j := by simpa using hi.symm
+      exact h3 e he (this ▸ hei)
+    match k with
+    | 0 => rw [hk0]; exact hp
+    | 1 => rw [hk1]; exact hprivS _ rfl
+    | 2 => rw [hk2]; exact hprivS _ rfl
+    | 3 => rw [hk3]; exact hprivS _ rfl
+    | k + 4 =>
+      intro i hi
+      have := hren tmp
+      rw [← hk4 (k + 4) (by omega)] at this
+      simp only [get] at this
+      rw [hi] at this
+      simp at this
+      exact absurd this.1 hne
 
 end Mobius.Crash
